@@ -120,8 +120,9 @@ impl PartitionConfirmationState {
                     attempts: 0,
                 });
 
-        // Update the event's confirmation status
-        event.confirmation_count = confirmation_count;
+        // Update the event's confirmation status. Reports can arrive late, twice and out of
+        // order: a count only ever grows, a stale lower one must not take a confirmation back.
+        event.confirmation_count = event.confirmation_count.max(confirmation_count);
         event.last_attempt = now;
         event.attempts += 1;
 
